@@ -94,7 +94,7 @@ func (t *tr) callMulti(ce *ast.CallExpr) []*cont {
 					t.errorf(ce, "wg.Add with an unknown count")
 					return t.ret()
 				}
-				if t.g.effects {
+				if t.cur.ps.eff {
 					t.errorf(ce, "wg.Add after the goroutine's first blocking operation is not supported")
 				}
 				t.p.wgs[b.id].init += n.n
@@ -122,8 +122,8 @@ func (t *tr) callMulti(ce *ast.CallExpr) []*cont {
 		}
 		args := t.evalArgs(ce)
 		if t.cfg.opaque != nil {
-			if vals, ok := t.cfg.opaque(t, base, name, ce, args); ok {
-				return t.ret(vals...)
+			if conts, ok := t.cfg.opaque(t, base, name, ce, args); ok {
+				return conts
 			}
 		}
 		t.noteOpaque(ce, base, name, args)
@@ -299,6 +299,10 @@ func (t *tr) pkgCall(b avPkg, name string, ce *ast.CallExpr) []*cont {
 		}
 		t.evalArgs(ce)
 		return t.ret(avUnknown{})
+	}
+	if (name == "New" || name == "Errorf") && (strings.HasSuffix(b.path, "errors") || b.path == "fmt") {
+		t.evalArgs(ce)
+		return t.ret(avConst{"error"}) // a non-nil error value
 	}
 	if dir := repoDir(b.path); dir != "" {
 		p, err := t.ld.load(dir)
